@@ -229,6 +229,9 @@ def ite(c, a, b):
         return a
     if c.op == 'not':
         return ite(c.args[0], b, a)
+    if c.op == 'feq' and c.args[0] is c.args[1]:
+        # x == x  is  !(x != x): one canonical NaN test
+        return ite(mk('fne', c.args[0], c.args[0]), b, a)
     # boolean-valued ite of constants
     if a is TRUE and b is FALSE:
         return c
@@ -346,7 +349,7 @@ def _val(t, bits, signed):
     return v
 
 
-_BITSY_OPS = ('bits', 'b2i', 'm8', 'm16', 'm32', 'm64')
+_BITSY_OPS = ('bits', 'b2i', 'm8', 'm16', 'm32', 'm64', 'signbits')
 ICOMMUT = {'add', 'mul', 'and', 'or', 'xor', 'eq', 'ne', 'min', 'max'}
 
 
@@ -365,6 +368,8 @@ def bits_of(t, n):
         return [t.args[0]] + [FALSE] * (n - 1)
     if t.op in ('m8', 'm16', 'm32', 'm64'):
         return [t.args[0]] * n
+    if t.op == 'signbits':
+        return [FALSE] * (n - 1) + [signbit(t.args[0])]
     return None
 
 
@@ -433,6 +438,10 @@ def iop(op, ty, a, b):
     if is_const(a) and b.op == 'ite' and _const_leaves(b):
         return ite(b.args[0], iop(op, ty, a, b.args[1]), iop(op, ty, a, b.args[2]))
     # bit-level reasoning (movemask & 7, == 7, != 0, >> k)
+    if op == 'lt' and not signed and is_const(a) and cbits(a) == 0 and b.op in _BITSY_OPS:
+        bb0 = bits_of(b, bits)
+        if bb0 is not None:
+            return b_or(*bb0)      # 0 < x  (unsigned)  ==  x != 0
     if op in ('and', 'or', 'xor', 'eq', 'ne', 'shr', 'shl'):
         ba, bb = bits_of(a, bits), bits_of(b, bits)
         if ba is not None and bb is not None and (a.op in _BITSY_OPS or b.op in _BITSY_OPS):
